@@ -16,6 +16,7 @@ from specs import c04
 
 PROP = "C11"
 GROUNDABLE = True
+GROUND_SCOPES = (4,)   # the emitter's path world needs a path, its parent and their two byte encodings
 BATTERY = "c11_battery.py"
 FILE = "watchdog/observers/inotify.py"
 FILE_C = "watchdog/observers/inotify_c.py"
